@@ -34,6 +34,7 @@ COST_POOLS = [
     [3, 3, 6, 6],
 ]
 SCORES = [0, 1, 1, 2, 2, 3, "1/2", 5]
+NEG_SCORES = [-1, -1, -2, "-1/2", -3]
 
 
 def gen_election(rng, max_proj=7, max_vot=6):
@@ -81,6 +82,7 @@ def gen_election(rng, max_proj=7, max_vot=6):
     if rng.random() < 0.10:   # one project dearer than the whole budget
         costs[rng.randrange(m)] = B + rng.choice([1, Fraction(1, 2)])
     kind = rng.choice(["approval", "approval", "approval", "cardinal", "cumulative", "ordinal"])
+    negative = kind in ("cardinal", "cumulative") and rng.random() < 0.4
     style = rng.choice(["random", "party", "nested", "dup", "random", "window", "window", "nested"])
     if dense:
         style = "dense"
@@ -119,11 +121,27 @@ def gen_election(rng, max_proj=7, max_vot=6):
         elif kind in ("cardinal", "cumulative"):
             eq = rng.random() < 0.35
             s0 = rng.choice(SCORES[1:])
-            ballots.append({str(j): pb.qs(s0 if eq else rng.choice(SCORES)) for j in S})
+            bl = {str(j): pb.qs(s0 if eq else rng.choice(SCORES)) for j in S}
+            if negative:       # somebody scores negatively what others score positively
+                for j in S:
+                    if rng.random() < 0.3:
+                        bl[str(j)] = pb.qs(rng.choice(NEG_SCORES))
+            ballots.append(bl)
         else:
             S2 = list(S)
             rng.shuffle(S2)
             ballots.append(S2)
+    r = rng.random()
+    if r < 0.04:
+        B = rng.choice(costs)                 # exactly the cost of one project
+    elif r < 0.07:
+        B = Fraction(0)                       # nothing to share: only supported zero-cost projects win
+        if rng.random() < 0.7:
+            costs[rng.randrange(m)] = Fraction(0)
+    if rng.random() < 0.05:                   # integers far beyond 2**53 (exact arithmetic is scale free)
+        K = rng.choice([2 ** 60 + 1, 10 ** 18, 3 * 2 ** 70])
+        costs = [c * K for c in costs]
+        B = B * K
     return {"costs": [pb.qs(c) for c in costs], "budget": pb.qs(B), "ballot": kind, "ballots": ballots}
 
 
@@ -136,6 +154,9 @@ def gen_config(rng, case, allow_irresolute=True):
         sat = rng.choice([s for s in sats if s in VOTER_NORMALISED or s.startswith("Additive_")])
     else:
         sat = rng.choice(sats)
+    if sat in SOLVER_SATS and any(abs(pb.F(c)) > 2 ** 53 for c in case["costs"]):
+        # CBC cannot handle such coefficients (it answers without a solution and the normaliser raises)
+        sat = rng.choice([x for x in sats if x not in SOLVER_SATS])
     case["sat"] = sat
     case["solver"] = sat in SOLVER_SATS
     case["multi"] = rng.random() < 0.45
@@ -160,6 +181,8 @@ def gen_config(rng, case, allow_irresolute=True):
         lo = max(costs + [pb.F(case["budget"])]) / 40
         if inc < lo:
             inc = lo
+        if inc <= 0:
+            inc = Fraction(1)
         case["inc"] = pb.qs(inc)
     enum = list(range(m))
     rng.shuffle(enum)
@@ -173,6 +196,8 @@ def gen_config(rng, case, allow_irresolute=True):
                 init.append(j)
                 left -= pb.F(case["costs"][j])
     case["init"] = init
+    if init or rng.random() < 0.05:
+        case["init_form"] = rng.choice(["list", "tuple", "set", "gen", "iter", "ba"])
     case["sat_mode"] = rng.choice(["class", "profile"])
     return case
 
@@ -225,6 +250,93 @@ def gen_stale(rng):
             "sat_mode": rng.choice(["class", "profile"]), "init": [], "stream": "stale"}
 
 
+def _finish(rng, case):
+    m = len(case["costs"])
+    enum = list(range(m))
+    rng.shuffle(enum)
+    case.setdefault("enum", enum)
+    case.setdefault("solver", False)
+    case.setdefault("init", [])
+    case.setdefault("inc", None)
+    case.setdefault("resolute", True)
+    case.setdefault("binary", rng.choice([None, True, False]))
+    case.setdefault("sat_mode", rng.choice(["class", "profile"]))
+    return case
+
+
+def gen_boundary(rng, allow_irresolute=True):
+    """Nothing to share: budget 0, or a budget used up exactly by the initial allocation -- and a zero-cost
+    project with a supporter (supported zero-cost projects are always selected), through every entry point
+    (resolute/irresolute, plain/iterated, sat_class/sat_profile, every form of initial_budget_allocation)."""
+    from fractions import Fraction as Fr
+    m = rng.choice([1, 2, 3, 3, 4])
+    n = rng.choice([1, 2, 3, 4])
+    costs = [Fr(rng.choice([0, 1, 2, 3, "3/2"])) for _ in range(m)]
+    z = rng.randrange(m)
+    costs[z] = Fr(0)
+    kind = rng.choice(["approval", "approval", "cardinal", "ordinal"])
+    ballots = []
+    for v in range(n):
+        S = sorted(rng.sample(range(m), rng.randrange(0, m + 1)))
+        if v == 0 and z not in S:
+            S = sorted(S + [z])
+        if kind == "approval":
+            ballots.append(S)
+        elif kind == "cardinal":
+            ballots.append({str(j): pb.qs(rng.choice([1, 2, 3])) for j in S})
+        else:
+            rng.shuffle(S)
+            if v == 0:                       # Borda gives 0 to the last position
+                S = [z] + [j for j in S if j != z] + ([j for j in range(m) if j not in S][:1])
+            ballots.append(S)
+    init = []
+    if rng.random() < 0.5:
+        pos = [j for j in range(m) if costs[j] > 0]
+        if pos:
+            init = rng.sample(pos, rng.randrange(1, min(2, len(pos)) + 1))
+    B = sum((costs[j] for j in init), Fr(0))
+    sat = {"approval": ["Cardinality_Sat", "Relative_Cardinality_Sat", "Cardinality_Sat"],
+           "cardinal": ["Additive_Cardinal_Sat", "Cardinality_Sat"],
+           "ordinal": ["Additive_Borda_Sat", "Cardinality_Sat"]}[kind]
+    case = {"costs": [pb.qs(c) for c in costs], "budget": pb.qs(B), "ballot": kind, "ballots": ballots,
+            "sat": rng.choice(sat), "multi": rng.random() < 0.4,
+            "tb": rng.choice(["lexico", "min_cost", "max_cost"]), "init": init,
+            "init_form": rng.choice(["list", "tuple", "set", "gen", "iter", "ba"]), "stream": "boundary"}
+    case["resolute"] = not (allow_irresolute and rng.random() < 0.3)
+    if rng.random() < 0.2:
+        case["inc"] = pb.qs(rng.choice([Fr(1, 2), Fr(1), Fr(1, 3)]))
+    return _finish(rng, case)
+
+
+def gen_appscore_tie(rng):
+    """app_score tie-breaking on an approval MultiProfile: two projects with an exact rho tie whose order by
+    number of approving VOTERS is the reverse of their order by number of DISTINCT approving ballots, and
+    buying either makes the other unaffordable (Cardinality_Sat; unit = the share of a voter)."""
+    from fractions import Fraction as Fr
+    unit = Fr(rng.choice([1, 2, "1/2", 3]))
+    A, Bp, C, D = 0, 1, 2, 3
+    rest = [[A, Bp], [Bp], [Bp, C]] + ([[Bp, D]] if rng.random() < 0.4 else [])
+    kx = len(rest)                            # copies of {A}: one more approving voter than B has
+    ballots = [[A]] * kx + rest
+    nA = sum(1 for b in ballots if A in b)
+    nB = sum(1 for b in ballots if Bp in b)
+    for _ in range(rng.choice([0, 0, 1])):
+        ballots = ballots + [[]]
+    n = len(ballots)
+    costs = [unit * nA, unit * nB, unit * rng.choice([5, 7]), unit * rng.choice([5, 7])]
+    perm = list(range(4))
+    rng.shuffle(perm)
+    costs2 = [None] * 4
+    for j in range(4):
+        costs2[perm[j]] = costs[j]
+    ballots = [sorted(perm[j] for j in b) for b in ballots]
+    rng.shuffle(ballots)
+    case = {"costs": [pb.qs(c) for c in costs2], "budget": pb.qs(unit * n), "ballot": "approval",
+            "ballots": ballots, "sat": "Cardinality_Sat", "multi": rng.random() < 0.8, "tb": "app_score",
+            "resolute": rng.random() < 0.85, "stream": "appscore"}
+    return _finish(rng, case)
+
+
 # ----------------------------------------------------------------------------------------------
 # building the library objects
 # ----------------------------------------------------------------------------------------------
@@ -252,11 +364,26 @@ def build(case):
     else:
         perm = {pb.pname(i): k for i, k in enumerate(tb[1])}
         rule = T.TieBreakingRule(lambda inst_, prof_, p: perm[p.name])
-    keys = []
-    for p in projs:
-        k = rule.func(inst, prof, p)
-        keys.append(pb.qs(pb.rank(p)) if isinstance(k, str) else pb.qs(k))
+    keys = tb_keys(case)
     return inst, projs, prof, cls, sp, sats, utils, mults, rule, keys
+
+
+def tb_keys(case):
+    """Key of every project under the case's tie-breaking rule, computed FROM THE CASE (the meaning of the
+    shipped rules: name order / minus the number of voters approving the project, every voter counted /
+    cost / minus cost) -- not from the library's TieBreakingRule objects, so that a defect in those is
+    seen as a difference from model and spec."""
+    tb = case["tb"]
+    m = len(case["costs"])
+    if tb == "lexico":
+        return [pb.qs(j) for j in range(m)]
+    if tb == "app_score":
+        return [pb.qs(-sum(1 for b in case["ballots"] if j in b)) for j in range(m)]
+    if tb == "min_cost":
+        return [pb.qs(pb.F(c)) for c in case["costs"]]
+    if tb == "max_cost":
+        return [pb.qs(-pb.F(c)) for c in case["costs"]]
+    return [pb.qs(k) for k in tb[1]]
 
 
 def resolved_binary(case):
@@ -271,9 +398,14 @@ def call_rule(case, inst, prof, cls, sp, rule, analytics=False):
               analytics=analytics)
     if case.get("inc") is not None:
         kw["voter_budget_increment"] = pb.num(case["inc"])
-    if case.get("init"):
-        kw["initial_budget_allocation"] = [p for p in inst if pb.rank(p) in case["init"]]
-        kw["initial_budget_allocation"].sort(key=lambda p: case["init"].index(pb.rank(p)))
+    if case.get("init") or case.get("init_form"):
+        from pabutools.rules.budgetallocation import BudgetAllocation
+        L = [p for p in inst if pb.rank(p) in case.get("init", [])]
+        L.sort(key=lambda p: case["init"].index(pb.rank(p)))
+        form = case.get("init_form", "list")
+        kw["initial_budget_allocation"] = {"list": lambda: L, "tuple": lambda: tuple(L), "set": lambda: set(L),
+                                           "gen": lambda: (p for p in L), "iter": lambda: iter(L),
+                                           "ba": lambda: BudgetAllocation(L)}[form]()
     if case.get("sat_mode") == "profile":
         kw["sat_profile"] = sp
     else:
